@@ -7,6 +7,13 @@ Part D: LSM tree over the ghost map view of its SSTables (SSTable internals are 
 Part E: transactions (conflict check = functional spec of backward validation, atomic commit, snapshot reads).
 Part F: bounded native stand-ins (compaction through the sync API against a dict; generator API of the LSM tree and
         of the B-tree inside a real Simulation against an interval oracle).
+Part C: SSTable.contains (Bloom filter: no false negative for a key of the view), SSTable.overlaps (key ranges).
+Part G: the three compaction strategies: select_compaction hands back the WHOLE run list of one existing level (or
+        nothing) + the documented choice of each strategy.
+Part H: generator LSMTree.put / delete: the value / tombstone reaches the active memtable in one atomic step.
+Part F additionally: one compaction on directly constructed trees (level gaps, tombstones) against a merge oracle;
+        overlapping compactions and flushes inside a Simulation (single-level trees only once
+        fixes/C14_same-level-merge-stays-oldest.diff is applied: open finding, triage/c14_single_level_compaction.py).
 See DESIGN.md section 3-C14.
 """
 from pyvc.spec import *
@@ -293,6 +300,23 @@ PROPERTY = {
         "mixed use of the sync API while a generator flush is suspended (put_sync + _flush_memtable_sync with a "
         "non-empty _immutable_memtables list) is outside the statement (operations overlapping in simulated time are "
         "the generator API)",
+        "SSTable.contains (part C): BloomFilter.contains has no false negatives over the ghost set g_items (property "
+        "C20) and the filter of an SSTable holds every key of its view (established by the add loop of "
+        "SSTable.__init__, which is not under contract: sorted(key=), range with a step and two list comprehensions "
+        "over lists of symbolic length); SSTable.get / scan / _index_range_for stay behind the assumed view contract "
+        "in the registered check - an opt-in run (C14_SSTABLE_DEEP=1) proves `get` from the class invariant with a "
+        "trusted contract of bisect_left/bisect_right, but needs 150-220 s and leaves _index_range_for undecided",
+        "compaction strategies (part G): the level list handed to select_compaction has at least level 0 (LSMTree "
+        "invariant has-level-0); `size_ratio ** i` with a symbolic exponent is an uninterpreted function, and "
+        "sum(s.key_count for s in level) over a level of symbolic length an arbitrary integer (engine) - the selection "
+        "contracts do not depend on either",
+        "LSMTree.put / delete (part H): WriteAheadLog.append only touches the WAL; the flush that a full memtable "
+        "triggers is used through a stub that may rewrite the on-disk lists and replace the active memtable but keeps the "
+        "number of levels (its own contract: part D)",
+        "the merge of a compaction (_compact/_compact_sync) is covered by bounded stand-ins only; they start from "
+        "trees in which the runs of one level >= 1 have pairwise disjoint key sets - an invariant the sync workload "
+        "stand-in re-checks on every tree it reaches (without it the merge is wrong: among the overlapping runs of the "
+        "target level the OLDEST version of a key wins)",
     ],
 }
 
@@ -729,8 +753,147 @@ class _NewSST:
 
 
 SST_ROWS = Seq(Tuple(Str, VAL))
-cls(SSTable, fields={"_data": SST_ROWS, "_level": Int, "_sequence": Int, "_size_bytes": Int},
-    ghost={"g_view": WMAP}, const=["_data", "_level", "_sequence", "_size_bytes", "g_view"])
+ROW = SST_ROWS.elem
+POSMAP = Map(Str, Int)
+from happysimulator.sketching.bloom_filter import BloomFilter  # noqa: E402
+import happysimulator.components.storage.sstable as _sst_mod  # noqa: E402
+
+cls(BloomFilter, ghost={"g_items": SSET})
+
+
+def _sst_terms(o):
+    return (seq_term(o._keys), seq_term(o._values), seq_term(o._data), seq_term(o._index_keys),
+            seq_term(o._index_positions))
+
+
+def _pos(o, k):
+    """ghost witness: the row index of key k (meaningful where k is in the view)"""
+    return z3.Select(POSMAP.dt.val(o.g_pos.term), kt(k))
+
+
+def _inv_aligned(o):
+    K, V, D, IK, IP = _sst_terms(o)
+    n = z3.Length(K)
+    return mk_bool(z3.And(z3.Length(V) == n, z3.Length(D) == n)) & forall(Int, lambda j: implies(
+        in_rng(j, n), mk_bool(z3.And(ROW.acc(0)(D[j.t]) == K[j.t], ROW.acc(1)(D[j.t]) == V[j.t]))), "j")
+
+
+def _inv_sorted(o):
+    K = seq_term(o._keys)
+    return forall(Int, lambda i: forall(Int, lambda j: implies(
+        mk_bool(z3.And(0 <= i.t, i.t < j.t, j.t < z3.Length(K))), mk_bool(K[i.t] < K[j.t])), "j"), "i")
+
+
+def _inv_view_rows(o):
+    K, V, D, IK, IP = _sst_terms(o)
+    return forall(Int, lambda j: implies(in_rng(j, z3.Length(K)), mk_bool(z3.And(
+        z3.Select(sdom(o.g_view), K[j.t]), z3.Select(WMAP.dt.val(o.g_view.term), K[j.t]) == V[j.t]))), "j")
+
+
+def _inv_view_complete(o):
+    K = seq_term(o._keys)
+    return forall(Str, lambda k: implies(has(o.g_view, k), mk_bool(z3.And(
+        0 <= _pos(o, k), _pos(o, k) < z3.Length(K), K[_pos(o, k)] == kt(k)))), "k")
+
+
+def _inv_index(o):
+    K, V, D, IK, IP = _sst_terms(o)
+    n, m = z3.Length(K), z3.Length(IP)
+    return (mk_bool(z3.And(z3.Length(IK) == m, z3.Implies(n > 0, z3.And(m > 0, IP[0] == 0))))
+            & forall(Int, lambda a: implies(in_rng(a, m), mk_bool(z3.And(
+                0 <= IP[a.t], IP[a.t] < n, IK[a.t] == K[IP[a.t]]))), "a")
+            & forall(Int, lambda a: forall(Int, lambda b: implies(
+                mk_bool(z3.And(0 <= a.t, a.t < b.t, b.t < m)), mk_bool(IP[a.t] < IP[b.t])), "b"), "a"))
+
+
+def _inv_bloom(o):
+    return forall(Str, lambda k: implies(has(o.g_view, k), has(o._bloom.g_items, k)), "k")
+
+
+cls(SSTable, fields={"_data": SST_ROWS, "_keys": Seq(Str), "_values": Seq(VAL), "_level": Int, "_sequence": Int,
+                     "_index_interval": Int, "_index_keys": Seq(Str), "_index_positions": Seq(Int),
+                     "_bloom": Ref(BloomFilter), "_size_bytes": Int},
+    ghost={"g_view": WMAP, "g_pos": POSMAP},
+    const=["_data", "_keys", "_values", "_level", "_sequence", "_index_interval", "_index_keys", "_index_positions",
+           "_bloom", "_size_bytes", "g_view", "g_pos"],
+    )
+# the class invariant of an SSTable, handed to each method as preconditions - each method only the parts it needs
+# (string order under nested quantifiers is expensive for the solver)
+_I = {"aligned": ("rows-keys-values-aligned", lambda s: _inv_aligned(s.self)),
+      "sorted": ("keys-strictly-increasing", lambda s: _inv_sorted(s.self)),
+      "rows": ("view-holds-every-row", lambda s: _inv_view_rows(s.self)),
+      "complete": ("view-holds-only-rows", lambda s: _inv_view_complete(s.self)),
+      "index": ("sparse-index-points-into-the-keys", lambda s: _inv_index(s.self)),
+      "bloom": ("bloom-filter-holds-every-key", lambda s: _inv_bloom(s.self))}
+
+
+# ---- part C: SSTable reads against the view (class invariant assumed: the constructor is not under contract)
+class _C14Bisect:
+    """trusted contract of bisect.bisect_left / bisect_right on a list of str of symbolic length: precondition
+    (checked at the call: named obligations) 0 <= lo <= hi <= len(a) and a[lo:hi] in non-decreasing order; the result r
+    has lo <= r <= hi, everything in a[lo:r] is < x (right: <= x), everything in a[r:hi] is >= x (right: > x)"""
+
+    def _run(self, right, a, x, lo=0, hi=None):
+        import bisect as _b
+        if not isinstance(a, SymList):
+            f = _b.bisect_right if right else _b.bisect_left
+            return f(a, x, lo, len(a) if hi is None else hi)
+        c = _ctx.cur()
+        src, n = a.term, z3.Length(a.term)
+        lo_t, hi_t, xt = num(lo), (n if hi is None else num(hi)), kt(x)
+        oblige("bisect/bounds-within-the-list", mk_bool(z3.And(0 <= lo_t, lo_t <= hi_t, hi_t <= n)), kind="post")
+        oblige("bisect/slice-is-sorted", forall(Int, lambda i: forall(Int, lambda j: implies(
+            mk_bool(z3.And(lo_t <= i.t, i.t < j.t, j.t < hi_t)), mk_bool(src[i.t] <= src[j.t])), "bj"), "bi"), kind="post")
+        r = c.fresh("bisect", z3.IntSort())
+        c.assume(z3.And(lo_t <= r, r <= hi_t))
+        c.note_term(r)
+        c.note_term(r - 1)
+        c.assume_value(forall(Int, lambda j: implies(mk_bool(z3.And(lo_t <= j.t, j.t < r)), mk_bool(
+            (src[j.t] <= xt) if right else (src[j.t] < xt))), "bl"))
+        c.assume_value(forall(Int, lambda j: implies(mk_bool(z3.And(r <= j.t, j.t < hi_t)), mk_bool(
+            (src[j.t] > xt) if right else (src[j.t] >= xt))), "br"))
+        return mk_num(r)
+
+    def bisect_left(self, a, x, lo=0, hi=None):
+        return self._run(False, a, x, lo, hi)
+
+    def bisect_right(self, a, x, lo=0, hi=None):
+        return self._run(True, a, x, lo, hi)
+
+
+_sst_mod.bisect = _C14Bisect()
+stub_of(BloomFilter, "contains", returns=Bool, modifies=[], ensures=[
+    lambda s: implies(has(s.self.g_items, s.item), s.result)])            # no false negatives (property C20)
+
+# NOT part of the registered check (C14_SSTABLE_DEEP=1 ./check C14 --only SSTable): z3 needs 150-220 s for `get`
+# (PROVED, with the block contract of _index_range_for used modularly), and does not decide `_index_range_for` itself
+# nor `runs-that-do-not-overlap-share-no-key` within the task budget (string order under nested quantifiers).
+_SST_DEEP = bool(_os.environ.get("C14_SSTABLE_DEEP"))
+if _SST_DEEP:
+    SST_RANGE = fn(SSTable, "_index_range_for", args={"key": Str}, returns=Tuple(Int, Int), modifies=[],
+                   requires=[_I["sorted"], _I["index"], _I["complete"]], ensures=[
+        ("a-range-of-the-keys", lambda s: (0 <= s.result[0]) & (s.result[0] <= s.result[1])
+         & (s.result[1] <= slen(s.self._keys))),
+        ("the-block-that-would-hold-the-key", lambda s: implies(has(s.self.g_view, s.key), mk_bool(z3.And(
+            num(s.result[0]) <= _pos(s.self, s.key), _pos(s.self, s.key) < num(s.result[1])))))])
+    fn(SSTable, "get", args={"key": Str}, uses=[(BloomFilter, "contains"), (SSTable, "_index_range_for")],
+       requires=[_I["aligned"], _I["sorted"], _I["rows"], _I["complete"], _I["index"], _I["bloom"]], ensures=[
+        ("returns-the-view", lambda s: reads_as(s.result, s.self.g_view, s.key))])
+fn(SSTable, "contains", args={"key": Str}, uses=[(BloomFilter, "contains")], requires=[_I["bloom"]], ensures=[
+    ("no-false-negative", lambda s: implies(has(s.self.g_view, s.key), s.result))])
+fn(SSTable, "overlaps", args={"other": Ref(SSTable)},
+   requires=[_I["sorted"], _I["complete"], ("other/keys-strictly-increasing", lambda s: _inv_sorted(s.other)),
+             ("other/view-holds-only-rows", lambda s: _inv_view_complete(s.other))] if _SST_DEEP else [], ensures=([
+    ("runs-that-do-not-overlap-share-no-key", lambda s: s.result | forall(Str, lambda k: Not(
+        has(s.self.g_view, k) & has(s.other.g_view, k)), "k"))] if _SST_DEEP else []) + [
+    ("true-iff-the-first-and-last-keys-interleave", lambda s: iff(s.result, _ranges_intersect(s.self, s.other))),
+    ("pure", lambda s: unchanged(s, s.self) & unchanged(s, s.other))])
+
+
+def _ranges_intersect(a, b):
+    Ka, Kb = seq_term(a._keys), seq_term(b._keys)
+    na, nb = z3.Length(Ka), z3.Length(Kb)
+    return mk_bool(z3.And(na > 0, nb > 0, Ka[0] <= Kb[nb - 1], Kb[0] <= Ka[na - 1]))
 cls(WriteAheadLog, fields={"_next_sequence": Int})
 cls(CompactionStrategy)
 cls(LSMTree, fields={"_compaction_strategy": Ref(CompactionStrategy), "_wal": OptRef(WriteAheadLog), "_disk": Any,
